@@ -27,6 +27,8 @@ clause -- the damage shows up in the property's own post-conditions on the real 
            family (a common memo, a cached mask) is then set up by the sibling.
   spell    Python bool options are passed as np.bool_ or 0 / 1, string options as a non-interned equal copy or a
            np.str_, on two calls out of three.
+  thread   a quarter of the calls of cheap routines are issued from a fresh worker thread (thread-local state such as
+           the decimal context is at its default there).
   negzero  on a third of the calls the zeros of float arguments are stored as -0.0.
   lock     on half of the judged calls the argument buffers are read-only: a write into the caller's array -- even
            one undone before returning -- raises ("assignment destination is read-only") and is booked as a C13
@@ -46,6 +48,7 @@ import os
 import zlib
 import random as pyrandom
 import signal
+import threading
 import time
 import sys
 
@@ -93,7 +96,7 @@ class History(object):
         self.n = {}         # fname -> call counter
         self.stats = {'reused_buffers': 0, 'fresh_buffers': 0, 'buffers_given_away': 0, 'aborted_precalls': 0,
                       'precalls_completed': 0, 'poisoned_results': 0, 'stability_rechecks': 0, 'primer_calls': 0,
-                      'primer_calls_raised': 0, 'sibling_calls': 0, 'respelled_flags': 0, 'negative_zero_arguments': 0, 'readonly_argument_calls': 0, 'replayed_calls': 0, 'sibling_calls_raised': 0, 'soft_deadline_hits': 0}
+                      'primer_calls_raised': 0, 'sibling_calls': 0, 'respelled_flags': 0, 'calls_from_worker_thread': 0, 'negative_zero_arguments': 0, 'readonly_argument_calls': 0, 'replayed_calls': 0, 'sibling_calls_raised': 0, 'soft_deadline_hits': 0}
         self.siblings_seen = {}
         self._mon_ok = None
         self._armed = None
@@ -162,6 +165,27 @@ class History(object):
                     done[k] = repr(bound.arguments[k])
                     self.stats['respelled_flags'] += 1
         return done
+
+    # ---------------------------------------------------------------- thread
+    def in_thread(self, name, fn, args, kwargs, enter):
+        """issue the judged call from a fresh worker thread (thread-local state -- decimal context, numpy error mode,
+        anything in threading.local -- is at its default there); returns (result, exception)"""
+        box = {}
+
+        def target():
+            enter()
+            try:
+                box['r'] = fn(*args, **kwargs)
+            except BaseException as e:  # noqa
+                box['e'] = e
+        t = threading.Thread(target=target, daemon=True)
+        t.start()
+        t.join(60)
+        if t.is_alive():
+            self.banned.add(('thread', name))
+            raise PrimerTimeout()
+        self.stats['calls_from_worker_thread'] += 1
+        return box.get('r'), box.get('e')
 
     # ---------------------------------------------------------------- reuse
     def substitute(self, name, bound):
